@@ -31,6 +31,10 @@ type C13Case struct {
 	// Loaders: readers parked between loading the current state and taking their reference on it
 	// (hook acquireState.loaded), i.e. the truncation publishes its new state under their feet
 	Loaders []int `json:"loaders,omitempty"`
+	// HoldPub (with Loaders): the truncation is held right after it has published the new state -
+	// it still owns its reference on the old one - while the loaders go on: they take their
+	// reference on the replaced state, notice, and must let go of it again
+	HoldPub bool `json:"holdPub,omitempty"`
 }
 
 func dirVsMeta(fs *simfs.FS) (extra, missing []string) { return kit.DirVsMeta(fs) }
@@ -69,7 +73,8 @@ func runC13x(c C13Case, strictReads bool) (res common.Result) {
 	ctl.BlockWait = time.Millisecond
 	// readers park only at their ReadAt; the truncating goroutine never parks
 	ctl.Filter = func(worker, point string) bool {
-		return (strings.HasPrefix(worker, "r") && point == "io:ReadAt") || (strings.HasPrefix(worker, "l") && point == "acquireState.loaded")
+		return (strings.HasPrefix(worker, "r") && point == "io:ReadAt") || (strings.HasPrefix(worker, "l") && point == "acquireState.loaded") ||
+			(worker == "t" && point == "mutate.published")
 	}
 	fs.SetHook(func(ev simfs.Event) (int, error) {
 		ctl.Point("io:" + string(ev.Kind))
@@ -113,7 +118,27 @@ func runC13x(c C13Case, strictReads bool) (res common.Result) {
 	}
 	var derr error
 	doneCh := make(chan struct{})
-	go func() { derr = w.DeleteRange(min, max); close(doneCh) }()
+	if c.HoldPub && len(c.Loaders) > 0 {
+		ctl.Go("t", func() { derr = w.DeleteRange(min, max); close(doneCh) })
+		// explicit hand-shakes, no timing: wait until the truncation sits at mutate.published (or has
+		// returned: a no-op publishes nothing), then run every loader to completion - each time it
+		// parks again at acquireState.loaded it is released again -, then let the truncation finish
+		ctl.AwaitParkedOrDone("t")
+		for i := range c.Loaders {
+			name := fmt.Sprintf("l%d", i)
+			for ctl.Running(name) {
+				ctl.AwaitParkedOrDone(name)
+				ctl.Release(name)
+			}
+		}
+		for ctl.Running("t") {
+			ctl.AwaitParkedOrDone("t")
+			ctl.Release("t")
+		}
+		res.Classes = append(res.Classes, "reader-acquires-between-publish-and-writer-release")
+	} else {
+		go func() { derr = w.DeleteRange(min, max); close(doneCh) }()
+	}
 	if parked, st := common.WaitParked(doneCh, "raft-wal.(*WAL).DeleteRange", 2*time.Second, 5*time.Minute); parked {
 		ctl.Finish(time.Second)
 		res.Fail = common.Failf("truncation-blocked-by-reader", "DeleteRange(%d,%d) is parked while %d readers sit inside ReadAt; it must not wait for readers:\n%s", min, max, pinned, st)
@@ -161,7 +186,7 @@ func runC13x(c C13Case, strictReads bool) (res common.Result) {
 	kit.Barrier(w)
 	extra, missing := dirVsMeta(fs)
 	if len(extra) > 0 {
-		res.Fail = common.Failf("files-not-reclaimed", "after DeleteRange(%d,%d) returned and all %d pinned reads finished, files not listed in metadata remain: %v (before: %v)", min, max, pinned, extra, before)
+		res.Fail = common.Failf("files-not-reclaimed", "after DeleteRange(%d,%d) returned and all %d pinned reads finished, files not listed in metadata remain: %v (before: %v; schedule %v)", min, max, pinned, extra, before, ctl.Trace)
 		return
 	}
 	if len(missing) > 0 {
@@ -241,6 +266,7 @@ func TestC13Pinned(t *testing.T) {
 		for i := 0; i < rapid.IntRange(0, 2).Draw(t, "nl"); i++ {
 			c.Loaders = append(c.Loaders, rapid.IntRange(0, 13).Draw(t, "loff"))
 		}
+		c.HoldPub = len(c.Loaders) > 0 && rapid.Bool().Draw(t, "holdPub")
 		if rapid.IntRange(0, 3).Draw(t, "short") == 0 {
 			c.N = rapid.IntRange(1, 3).Draw(t, "shortN") // stays in the first segment: no rotation before the truncation
 		}
@@ -263,6 +289,7 @@ func TestC06LoadedReader(t *testing.T) {
 		c.Kind = rapid.SampledFrom([]string{"head", "head", "tail", "all"}).Draw(t, "kind")
 		c.Cut = rapid.IntRange(0, 13).Draw(t, "cut")
 		c.Start = rapid.SampledFrom([]uint64{1, 1, 100}).Draw(t, "start")
+		c.HoldPub = rapid.IntRange(0, 2).Draw(t, "holdPub") == 0
 		return c
 	}, func(c C13Case) common.Result { return runC13x(c, true) })
 }
